@@ -15,7 +15,7 @@
    write system call).  [H] is digest-and-size verification: a content [c]
    matches the name [d] iff [H c = d].  [shuffle] is Go's map iteration order in
    saveIndex: any function, indexed by the operation counter. *)
-From Oras Require Import Base.Prelude.
+From Oras Require Import Base.Prelude Generated.GC10.
 
 (* ---------- paths ---------- *)
 Inductive fpath :=
@@ -143,6 +143,9 @@ Variable H : list N -> N.
 Variable shuffle : nat -> list entry -> list entry.
 (* inplace = true is the code before the repair: os.WriteFile on index.json *)
 Variable inplace : bool.
+(* unlink_first = true: Store.delete removes the blob before it rewrites index.json
+   (the order is read off the source, see src_unlink_first below) *)
+Variable unlink_first : bool.
 
 Definition index_steps (c : nat) (tags : list (N * N)) (digs : list N) : list mstep :=
   let l := shuffle c (save tags digs) in
@@ -194,9 +197,10 @@ Definition op_steps (s : st) (o : op) : list mstep :=
       | None => []
       end
   | Delete d =>
-      (if existsb (fun e => snd e =? d) (stags s) || memN d (sdigs s)
-       then index_steps c tags' digs' else []) ++
-      (if exists_file (sfs s) (FBlob d) then [Unlink (FBlob d)] else [])
+      let ix := if existsb (fun e => snd e =? d) (stags s) || memN d (sdigs s)
+                then index_steps c tags' digs' else [] in
+      let un := if exists_file (sfs s) (FBlob d) then [Unlink (FBlob d)] else [] in
+      if unlink_first then un ++ ix else ix ++ un
   | SaveIndex => index_steps c tags' digs'
   end.
 
@@ -291,3 +295,18 @@ Definition recoverableb (univ : list N) (fs0 fsk fs1 : FS) : bool :=
   forallb (fun d => implb (exists_file fsk (FBlob d)) (exists_file fs0 (FBlob d) || exists_file fs1 (FBlob d))) univ.
 
 End Model.
+
+(* ---------- configuration read off the Go source (Generated/GC10.v, layer T) ---------- *)
+(* writeIndexFile goes through writeFileAtomic = open(O_EXCL) a sibling, write, close, rename *)
+Definition src_inplace : bool :=
+  negb (list_eqb str_eqb calls_write_index [b "writeFileAtomic"] &&
+        list_eqb str_eqb calls_write_atomic [b "os.OpenFile"; b "f.Write"; b "f.Close"; b "os.Rename"]).
+(* Store.delete: saveIndex before storage.Delete *)
+Definition src_unlink_first : bool :=
+  negb (list_eqb str_eqb calls_delete [b "s.saveIndex"; b "s.storage.Delete"]).
+(* Store.Push: the blob is stored before it is tagged; Storage.Push: ingest then rename;
+   ingest: create temp, copy+verify, chmod *)
+Definition src_push_order_ok : bool :=
+  list_eqb str_eqb calls_store_push [b "s.storage.Push"; b "s.tag"] &&
+  list_eqb str_eqb calls_storage_push [b "s.ingest"; b "os.Rename"] &&
+  list_eqb str_eqb calls_ingest [b "os.CreateTemp"; b "ioutil.CopyBuffer"; b "os.Chmod"].
